@@ -1,3 +1,4 @@
+pub mod alloc_count;
 pub mod checks;
 pub mod dag;
 pub mod engine;
@@ -5,3 +6,6 @@ pub mod r#gen;
 pub mod model;
 pub mod tape;
 pub mod util;
+
+#[global_allocator]
+static GLOBAL: alloc_count::Counting = alloc_count::Counting;
